@@ -1074,6 +1074,11 @@ class Interp:
             return
         if isinstance(target, ast.Attribute):
             obj = self.eval(target.value, env)
+            if isinstance(obj, OptVal) and isinstance(obj.value, Obj):
+                # storing into an optional object: it must be present
+                self.oblige(f"store_not_None@{self.cur_line}", obj.present,
+                            "safety")
+                obj = obj.value
             if isinstance(obj, Obj):
                 # property setter?
                 ci = ClassIndex.get()
@@ -1385,6 +1390,12 @@ class Interp:
                 return self.final_env[name]
             if fn.id == "super" and not node.args:
                 return SuperRef(env.get("self"), self.cls_stack_top())
+            if fn.id == "super" and len(node.args) == 2 and \
+                    isinstance(node.args[0], ast.Name) and \
+                    isinstance(node.args[1], ast.Name):
+                # super(Class, obj_or_cls): the next class after Class in
+                # the MRO of the receiver
+                return SuperRef(env.get(node.args[1].id), node.args[0].id)
         callee = self.eval(fn, env)
         args, kwargs = self.eval_args(node, env)
         return self.call(callee, args, kwargs, node)
@@ -1729,7 +1740,11 @@ class Interp:
                 self.havoc_path(path, env, f"{con.func}@{self.cur_line}",
                                 binding=env)
             res = None
-            if con.returns is not None:
+            if con.extra.get("returns_param"):
+                # the callee returns (the object bound to) one of its own
+                # parameters
+                res = env[con.extra["returns_param"]]
+            elif con.returns is not None:
                 res = self.fresh(con.returns, self.namer.fresh(
                     f"ret.{con.func}@{self.cur_line}"))
             self.old_env, self.result = old, res
